@@ -50,7 +50,7 @@ inductive BrRoll (ro : Rollout) (cur : Int) (id : String) : Option BR → Option
 /-- what one clean-up round may do to the BatchRelease: nothing; resume it (batch partition removed); delete it -/
 inductive BrFin : Option BR → Option BR → Prop
   | same (br : Option BR) : BrFin br br
-  | changed (b b' : BR) : b'.batches = b.batches → b'.rollbackAnno = b.rollbackAnno →
+  | changed (b b' : BR) : b'.batches = b.batches → b'.rollbackAnno = b.rollbackAnno → b'.phaseCompleted = b.phaseCompleted →
       (b'.partition = b.partition ∨ b'.partition = none) → (b'.deleting = b.deleting ∨ b'.deleting = true) →
       BrFin (some b) (some b')
 
